@@ -1425,10 +1425,55 @@ theorem validDenom_strOk (d : String) (h : validDenom d = true) : strOk d = true
     all_goals (subst h1; decide)
 
 
-/-- Attributes accepted by `Validate()` have printable text; for Hyperlane the hook metadata (`0x` + hex when validation
-accepts it) and the denomination of a zero maximum fee (not validated at all) are assumed so. -/
-theorem attrs_validate_textOk (hrp : String) (orb : Bytes) (a : Attrs) (h : a.validate hrp orb = .ok ())
-    (hh : ∀ t d r k hm g fd fa, a = .hyp t d r k hm g fd fa → strOk hm = true ∧ (fa = 0 → strOk fd = true)) : a.textOk = true := by
+theorem hexVal_printable {c : Char} (h : (hexVal? c).isSome = true) : asciiPrintable c = true := by
+  unfold hexVal? at h
+  unfold asciiPrintable
+  simp only [Bool.and_eq_true, decide_eq_true_eq]
+  split at h
+  · rename_i hc
+    have h1 : ('0' : Char).toNat ≤ c.toNat := hc.1
+    have h2 : c.toNat ≤ ('9' : Char).toNat := hc.2
+    have : ('0' : Char).toNat = 48 ∧ ('9' : Char).toNat = 57 := by decide
+    omega
+  · split at h
+    · rename_i hc
+      have h1 : ('a' : Char).toNat ≤ c.toNat := hc.1
+      have h2 : c.toNat ≤ ('f' : Char).toNat := hc.2
+      have : ('a' : Char).toNat = 97 ∧ ('f' : Char).toNat = 102 := by decide
+      omega
+    · split at h
+      · rename_i hc
+        have h1 : ('A' : Char).toNat ≤ c.toNat := hc.1
+        have h2 : c.toNat ≤ ('F' : Char).toNat := hc.2
+        have : ('A' : Char).toNat = 65 ∧ ('F' : Char).toNat = 70 := by decide
+        omega
+      · cases h
+
+/-- Hook metadata accepted by `HypAttributes.Validate` (`0x` + hex, or empty) is printable. -/
+theorem hookMeta_strOk (hm : String)
+    (h : (hm != "" && !(hm.startsWith Gen.hypHookMetadataPrefix && isHexString (hm.drop Gen.hypHookMetadataPrefix.length).toString)) = false) :
+    strOk hm = true := by
+  unfold strOk
+  simp only [Bool.and_eq_false_iff, bne_eq_false_iff_eq, Bool.not_eq_false', Bool.and_eq_true] at h
+  rcases h with h | h
+  · subst h; rfl
+  · obtain ⟨hp, hx⟩ := h
+    have hpre : Gen.hypHookMetadataPrefix.toList <+: hm.toList := by simpa using hp
+    obtain ⟨t, ht⟩ := hpre
+    have hd : (hm.drop Gen.hypHookMetadataPrefix.length).toString.toList = t := by
+      have h1 : (hm.drop Gen.hypHookMetadataPrefix.length).toString.toList = hm.toList.drop Gen.hypHookMetadataPrefix.length := by simp
+      rw [h1, ← ht, ← String.length_toList, List.drop_left]
+    unfold isHexString at hx
+    simp only [hd, Bool.and_eq_true, List.all_eq_true] at hx
+    rw [← ht, List.all_append, Bool.and_eq_true]
+    refine ⟨by decide, ?_⟩
+    rw [List.all_eq_true]
+    intro c hc
+    exact hexVal_printable (hx.2 c hc)
+
+
+/-- Attributes accepted by `Validate()` have printable text. -/
+theorem attrs_validate_textOk (hrp : String) (orb : Bytes) (a : Attrs) (h : a.validate hrp orb = .ok ()) : a.textOk = true := by
   cases a with
   | cctp d m c => rfl
   | internal r =>
@@ -1446,19 +1491,22 @@ theorem attrs_validate_textOk (hrp : String) (orb : Bytes) (a : Attrs) (h : a.va
     intro f hf
     exact feeInfo_validate_textOk hrp f (Res.allM_ok h.2 f hf)
   | hyp t d r k hm g fd fa =>
-    obtain ⟨h1, h2⟩ := hh t d r k hm g fd fa rfl
+    simp only [Attrs.validate] at h
+    repeat' split at h
+    all_goals first | cases h | skip
+    rename_i g1 g2 g3 g4 hmeta g6 hden
+    have h1 : strOk hm = true := by
+      apply hookMeta_strOk
+      cases hq : (hm != "" && !(hm.startsWith Gen.hypHookMetadataPrefix && isHexString (hm.drop Gen.hypHookMetadataPrefix.length).toString)) with
+      | false => rfl
+      | true => exact absurd hq hmeta
     simp only [Attrs.textOk, h1, Bool.true_and]
-    by_cases hz : fa = 0
-    · exact h2 hz
-    · simp only [Attrs.validate] at h
-      repeat' split at h
-      all_goals first | cases h | skip
-      rename_i hden
-      have : validDenom fd = true := by
+    by_cases he : fd = ""
+    · subst he; rfl
+    · have : validDenom fd = true := by
         cases hv : validDenom fd with
         | true => rfl
-        | false => simp [hv, hz] at hden
+        | false => simp [hv, he] at hden
       exact validDenom_strOk fd this
-
 
 end Orbiter
